@@ -59,6 +59,7 @@ class Peer:
         self.sign_header = False
         self.sealed_reply: t.Optional[bytes] = None
         self.reply_body = b""
+        self.reply_bodies: t.List[bytes] = []
         self.auth_type = 10
 
     def connect(self, host, port):
@@ -99,6 +100,7 @@ class Peer:
             pad = -len(self.reply_stub) % 16 if self.reply_pad is None else self.reply_pad
             body = self.reply_stub + b"\x00" * pad
             self.reply_body = body
+            self.reply_bodies.append(body)
             sig_len = self.ctx.query_message_sizes().header
             total = 24 + len(body) + 8 + sig_len
             hdr = rpc.header(rpc.RESPONSE, 3, total, sig_len, d["call_id"]) + struct.pack("<IHBB", len(body), d["ctx_id"], 0, 0)
@@ -133,7 +135,10 @@ def exchange(api: str, peer: Peer, stub: bytes, vt, ctx_id: int = 0, opnum: int 
             c = create_rpc_connection("dc", 49664, username=user, password=pw, auth_protocol="ntlm")
             try:
                 c.bind(contexts=contexts())
-                r = c.request(ctx_id, opnum, stub, verification_trailer=vt)
+                if isinstance(stub, list):
+                    r = [c.request(ctx_id, opnum, s_, verification_trailer=vt) for s_ in stub]
+                else:
+                    r = c.request(ctx_id, opnum, stub, verification_trailer=vt)
             finally:
                 c.close()
         else:
@@ -142,6 +147,8 @@ def exchange(api: str, peer: Peer, stub: bytes, vt, ctx_id: int = 0, opnum: int 
                 c = await async_create_rpc_connection("dc", 49664, username=user, password=pw, auth_protocol="ntlm")
                 try:
                     await c.bind(contexts=contexts())
+                    if isinstance(stub, list):
+                        return [await c.request(ctx_id, opnum, s_, verification_trailer=vt) for s_ in stub]
                     return await c.request(ctx_id, opnum, stub, verification_trailer=vt)
                 finally:
                     await c.close()
@@ -150,15 +157,18 @@ def exchange(api: str, peer: Peer, stub: bytes, vt, ctx_id: int = 0, opnum: int 
         return r, (made[0] if made else None)
 
 
-def check_request(acc, case, peer: Peer, cctx, stub: bytes, vt_name: str, ctx_id: int, opnum: int) -> None:
+def check_request(acc, case, peer: Peer, cctx, stub: bytes, vt_name: str, ctx_id: int, opnum: int, index: t.Optional[int] = None) -> None:
     import spnego.iov as siov
 
     def bad(key: str, **detail):
         acc.violate("req." + key, case, detail, size=len(stub))
 
-    if len(peer.requests) != 1:
+    if index is None and len(peer.requests) != 1:
         return bad("count", n=len(peer.requests))
-    W = peer.requests[0]
+    idx = index or 0
+    if idx >= len(peer.requests):
+        return bad("count", n=len(peer.requests))
+    W = peer.requests[idx]
     sig = peer.sig if peer.mode != "ntlm" else 16
     frag, alen = struct.unpack("<HH", W[8:12])
     if frag != len(W):
@@ -178,7 +188,7 @@ def check_request(acc, case, peer: Peer, cctx, stub: bytes, vt_name: str, ctx_id
     aty, lvl, pad, rsv, actx = struct.unpack("<BBBBI", W[T : T + 8])
     if (aty, lvl, rsv, actx) != (10, 6, 0, 0):
         bad("trailer-fields", trailer=W[T : T + 8].hex())
-    plain = peer.unsealed[0] if peer.unsealed else None
+    plain = peer.unsealed[idx] if len(peer.unsealed) > idx else None
     if not isinstance(plain, (bytes, bytearray)):
         return bad("receiver-cannot-unseal", err=repr(plain))
     vtb = ref_vt(vt_name)
@@ -190,9 +200,9 @@ def check_request(acc, case, peer: Peer, cctx, stub: bytes, vt_name: str, ctx_id
     if bytes(plain) != expect + b"\x00" * exp_pad:
         bad("sealed-region", got=bytes(plain).hex()[:200], expected=(expect + b"\x00" * exp_pad).hex()[:200])
     if cctx is not None:
-        if len(cctx.wraps) != 1:
+        if (index is None and len(cctx.wraps) != 1) or len(cctx.wraps) <= idx:
             return bad("wrap-count", n=len(cctx.wraps))
-        wv = cctx.wraps[0]
+        wv = cctx.wraps[idx]
         ty = siov.BufferType.sign_only if peer.sign_header else siov.BufferType.data_readonly
         iov = wv["iov"]
         want = [(ty, W[:24]), (siov.BufferType.data, bytes(plain)), (ty, W[T : T + 8]), (siov.BufferType.header, None)]
@@ -238,6 +248,9 @@ def shards(tier: str, seed: int):
             out.append(["reply", api, sig])
         out.append(["ntlm", api])
         out.append(["api-pad", api])
+        for sig in (16, 60):
+            for sign in (True, False):
+                out.append(["seq", api, sig, sign])
     return out
 
 
@@ -265,6 +278,26 @@ def run_shard(shard, tier, seed, acc) -> None:
             n += 1
             acc.set_add("residues", ((24 + ln) % 16, vt_name))
         acc.sample({"api": api, "signature_size": sig, "header_signing": sign, "verification_trailer": vt_name, "stub_lengths": f"0..{top}"})
+    elif what == "seq":
+        _, _, sig, sign = shard
+        for vt_name in ("off", "isd"):
+            for a in range(16):
+                for b in range(16):
+                    stubs = [d.bytes(a), d.bytes(b + 16 * (a % 2)), d.bytes(a + 32)]
+                    peer = Peer("scripted", sig, sign)
+                    case = ["seq", api, sig, sign, vt_name, a, b]
+                    try:
+                        rs, cctx = exchange(api, peer, stubs, vts()[vt_name], 0, 0)
+                    except Exception as e:  # noqa: BLE001
+                        acc.violate(f"seq.exc.{type(e).__name__}", case, {"exc": repr(e)}, size=a + b)
+                        n += 1
+                        continue
+                    for i, stub in enumerate(stubs):
+                        check_request(acc, case + [i], peer, cctx, stub, vt_name, 0, 0, index=i)
+                        if bytes(rs[i].stub_data) != peer.reply_bodies[i]:
+                            acc.violate("seq.reply.stub", case + [i], {"got": bytes(rs[i].stub_data).hex()[:80]})
+                    n += 1
+        acc.sample({"api": api, "signature_size": sig, "three requests on one connection": "stub residues (a, b, a) for all a,b in 0..15"})
     elif what == "reply":
         sig = shard[2]
         for ln in range(0, 81):
@@ -308,10 +341,15 @@ def run_shard(shard, tier, seed, acc) -> None:
         for dl in range(0, 9):
             dom = "d" * dl
             blob = cms.ref_encrypt(rk, sid, b"c13", (361, 3, 5), cek=d.bytes(32), gcm_nonce_=d.bytes(12), key_nonce=d.bytes(32), domain=dom, forest=dom)
-            for pad in list(range(16)) + [None, 16, 28, 255]:
+            variants = [(pad, "padded", 0) for pad in list(range(16)) + [None, 16, 28, 255]]
+            variants += [(None, ah, fill) for ah in ("padded", "unpadded", "zero", "16", "max") for fill in (0, 0xE7)]
+            variants += [(pad, ah, 0xE7) for pad in (0, 4, 8, 12, 20) for ah in ("unpadded", "16")]
+            for pad, ah, fill in variants:
                 dc = refdc.DC([rk], now=(361, 10, 12), domain=dom, forest=dom)
                 dc.reply_pad = pad
-                case = ["api-pad", api, dl, pad]
+                dc.reply_alloc_hint = ah
+                dc.reply_pad_fill = fill
+                case = ["api-pad", api, dl, pad, ah, fill]
                 with transport.network(dc), secctx.scripted_client(lambda u, p, **kw: secctx.ScriptedContext([b"C1"], 16)):
                     try:
                         kw = dict(server="dc", username="u", password="p", auth_protocol="ntlm")
@@ -364,7 +402,7 @@ def replay(case, seed, acc) -> None:
             if (ln + pad) % 16 == 0:
                 acc.violate(f"reply.exc.{type(e).__name__}", case, {"exc": repr(e)})
     else:
-        run_shard([what, api], "quick", seed, acc)
+        run_shard([what, api] + (list(case[2:4]) if what == "seq" else []), "quick", seed, acc)
         for k in list(acc.violations):
             acc.violations[k] = [e for e in acc.violations[k] if e["case"] == case]
             if not acc.violations[k]:
